@@ -222,16 +222,20 @@ func parseKeysLeasesAndSignature(ls2 *LeaseSet2, data []byte) ([]byte, error) {
 // validateLeaseSet2MinSize validates that data meets minimum LeaseSet2 size requirements.
 // Returns error if data is too short to contain a valid LeaseSet2.
 func validateLeaseSet2MinSize(dataLen int) error {
-	if dataLen < LEASESET2_MIN_SIZE {
+	// Only the fixed header is required up front: every later stage checks the
+	// length of its own fields. LEASESET2_MIN_SIZE describes the smallest
+	// LeaseSet2 with an EdDSA destination; a well-formed LeaseSet2 of a DSA-SHA1
+	// destination (40-byte signature) is shorter than that and must not be rejected here.
+	if dataLen < LEASESET2_HEADER_MIN_SIZE {
 		err := oops.
 			Code("lease_set2_too_short").
 			With("data_length", dataLen).
-			With("minimum_required", LEASESET2_MIN_SIZE).
-			Errorf("data too short for LeaseSet2: got %d bytes, need at least %d", dataLen, LEASESET2_MIN_SIZE)
+			With("minimum_required", LEASESET2_HEADER_MIN_SIZE).
+			Errorf("data too short for LeaseSet2: got %d bytes, need at least %d", dataLen, LEASESET2_HEADER_MIN_SIZE)
 		log.WithFields(logger.Fields{
 			"at":          "validateLeaseSet2MinSize",
 			"data_length": dataLen,
-			"min_size":    LEASESET2_MIN_SIZE,
+			"min_size":    LEASESET2_HEADER_MIN_SIZE,
 		}).Error(err.Error())
 		return err
 	}
